@@ -233,6 +233,9 @@ def dict_set(eng, d, key, val):
 def setitem(eng, base, key, val):
     if isinstance(base, V) and base.ty[0] == 'dict':
         return dict_set(eng, base, key, val)
+    if isinstance(base, V) and base.ty[0] == 'opt' and base.ty[1][0] == 'dict':
+        eng.prove_internal('item assignment on None', z3.Not(T.is_none(base)), 'TypeError')
+        return T.coerce(dict_set(eng, T.opt_val(base), key, val), base.ty)
     raise_unsupported('item assignment on %s' % (getattr(base, 'ty', base),))
 
 
@@ -1145,6 +1148,15 @@ def construct(eng, ci, args, kwargs, fr, node):
         return make_exc(eng, name, args, kwargs)
     if name in OPAQUE_CLASSES:
         return eng.fresh(ANY, name)
+    ca = (eng.contract.extra.get('construct_as') or {}) if eng.contract is not None else {}
+    if name in ca:
+        # an object of another component, seen through the interface this unit uses: a fresh object of the declared
+        # external class (fields unconstrained), recorded in the trace
+        from . import heap as H
+        ref = H.alloc(eng, ca[name], {})
+        H.note_ref(eng, ref)
+        eng.trace_event('Construct:' + name, ref, name, [a for a in args if isinstance(a, V)])
+        return ref
     if name in T.STRUCTS:
         fields = T.STRUCTS[name]
         vals = {}
